@@ -70,6 +70,8 @@ class SpecRun:
         self.unchecked = lemma.unchecked
         self.stores = []                     # stores the source semantics prescribed so far: (addr, nbytes, value)
         self.newvars = {}                    # variables declared by the construct under test: name -> value
+        self.alloc = z3.IntVal(0)            # bytes of stack arrays the construct has allocated so far (README "Arrays": a new array lives until its scope ends)
+        self.fresh_arrays = []               # (ArrayVal, nbytes, content known?) in allocation order
         self.M = lemma.M
         self.W = lemma.w
 
@@ -291,6 +293,9 @@ class SpecRun:
         raise NotImplementedError(f'spec: statement {type(s).__name__}')
 
     def eval_init(self, e):
+        from hidc.ast import ArrayType
+        if isinstance(e.type, ArrayType):
+            return self.array_of(e)
         return self.eval(e)
 
     def block_child(self, node):
@@ -310,8 +315,10 @@ class SpecRun:
         if isinstance(b, ABlock):
             return self.block_child(b)
         if isinstance(b, ast.CodeBlock):
+            saved = self.alloc
             for s in b.stmts:
                 self.exec_stmt(s)
+            self.alloc = saved              # the scope ends: arrays created in it are released (README "Arrays")
             return
         if isinstance(b, ast.IfBlock):
             c = self.eval(b.cond)
@@ -418,7 +425,7 @@ class SpecRun:
         if isinstance(e, ast.ArrayLiteral):
             return self.array_literal(e)
         if isinstance(e, ast.ArrayInitializer):
-            return self.L.array_initializer(self, e)
+            return self.array_initializer(e)
         raise NotImplementedError(f'spec: array expression {type(e).__name__}')
 
     def length_of(self, src):
@@ -482,18 +489,39 @@ class SpecRun:
         else:
             self.store(a, n, v)
 
+    def array_initializer(self, e):
+        """`T a[n]`: n evaluated once; a new uninitialised array of n elements on top of the array stack.  Lack of space (or a negative /
+        unrepresentable length) is the stack_overflow fault: *when* exactly it is raised is the GUARD-EXACT contract of the allocation
+        (contracts/lem_guard.py); here the fault is admitted at this point and nowhere else."""
+        n = self.eval(e.length)
+        el = e.type.el_type
+        l = self.leaf
+        if not self.unchecked and l.kind == 'term' and l.tgt == 'stack_overflow' and self.pos + 2 == len(self.trace):
+            self.fault('stack_overflow')
+        base = self.L.alloc_base(self) + self.alloc
+        nbytes = self.L.array_bytes(el, isa.sx(n, self.M))
+        arr = ArrayVal(el, 'state', base, n)
+        self.alloc = self.alloc + nbytes
+        self.fresh_arrays.append((arr, nbytes, False))
+        return arr
+
     def array_literal(self, e):
         """elements are evaluated left to right; the new array lives where the array stack ended"""
         n = len(e.values)
         el = e.type.el_type
-        base = self.L.alloc_base(self)
+        base = self.L.alloc_base(self) + self.alloc
         vals = [self.eval(x) for x in e.values]
         if el == DataType.BOOL:
             for j in range((n + 7) // 8):
                 byte = sum((vals[8 * j + t] % 2) * (1 << t) for t in range(8) if 8 * j + t < n)
                 self.store(base + j, 1, byte, private=True)
+            nbytes = (n + 7) // 8
         else:
             size = 1 if el.byte_sized else self.W
             for j, v in enumerate(vals):
                 self.store(base + j * size, size, v, private=True)
-        return ArrayVal(el, 'state', base, z3.IntVal(n))
+            nbytes = n * size
+        arr = ArrayVal(el, 'state', base, z3.IntVal(n))
+        self.alloc = self.alloc + nbytes
+        self.fresh_arrays.append((arr, z3.IntVal(nbytes), True))
+        return arr
